@@ -168,6 +168,7 @@ theorem strictB_sound : ∀ (t : VTy) (j : Json), strictB t j = true → Strict 
   | string => intro j _; cases j <;> simp [Strict]
   | uint128 => intro j _; cases j <;> simp [Strict]
   | addr => intro j _; cases j <;> simp [Strict]
+  | binary => intro j _; cases j <;> simp [Strict]
   | empty => intro j h; cases j <;> simp [strictB, Strict] at h ⊢
   | option t ih =>
     intro j h
